@@ -82,4 +82,11 @@ RoundTrip(t) == LET p == ParseBlob(Encode(t), ShapeOf(t)) IN p.ok /\ p.t = t
 MinimalHeader(t) == LET e == Encode(t) d == DecodeHeader(e) IN d.hdr = HdrLen(t.tag, Len(Payload(t))) /\ d.len = Len(Payload(t))
 TruncationsRejected(t) == LET e == Encode(t) IN \A n \in 0..(Len(e) - 1) : ~ParseBlob(SubSeq(e, 1, n), RawShape).ok
 ReadOneConsumesOne(t, extra) == LET f == First(Encode(t) \o extra) IN f.ok /\ f.used = Len(Encode(t))
+
+(* stream readers (KSI_FTLV_fileRead / KSI_FTLV_socketRead): the caller hands a buffer of buf bytes; the element at the head of the
+   stream is delivered iff it fits -- header AND payload, a buffer of exactly the element's size is enough -- and then exactly its
+   bytes are consumed; an element that does not fit is refused having consumed at most its header, nothing is ever stored past buf *)
+StreamRead(tag, len, buf) == LET h == HdrLen(tag, len) IN
+    IF buf >= h + len /\ buf >= 2 THEN [ok |-> TRUE, used |-> h + len] ELSE [ok |-> FALSE, used |-> h]
+StreamExact(tag, len) == StreamRead(tag, len, HdrLen(tag, len) + len).ok /\ ~StreamRead(tag, len, HdrLen(tag, len) + len - 1).ok
 =============================================================================
